@@ -1,5 +1,6 @@
 import RV.C14.Lemmas
 import RV.C14.SkolemLemmas
+import RV.C14.CanonLemmas
 /-
   C14 — property statements and theorems.
 
@@ -120,6 +121,86 @@ example : isoDecide exC6 ex2C3 = false := by decide
 example : Spec.Iso exC6 exC6' := (isoDecide_correct _ _).mp (by decide)
 example : ¬ Spec.Iso exC6 ex2C3 := fun h => absurd ((isoDecide_correct _ _).mpr h) (by decide)
 example : isoCheck [(1, 11), (2, 12), (3, 13), (4, 14), (5, 15), (6, 16)] exC6 exC6' = true := by decide
+
+
+/-! ## The canonicaliser (colour refinement and labels; the individualisation search is not modelled) -/
+
+/-- one `Color.distinguish` round is invariant under isomorphism: for an isomorphism `σ : g → h`
+    (`h` = relabelled and shuffled `g`, both duplicate-free), a colour tuple `items`, a splitter with hash `hW`
+    whose members in `h` are the images of its members in `g` (in any order), every node `n` of `g` and its
+    image get colour tuples with the SAME hash — `hash_color` being a sum, hence order-independent. -/
+def Statement_refine_equivariant : Prop :=
+  ∀ (H : List Item → Nat), (∀ a b : List Item, a.Perm b → H a = H b) →
+  ∀ (σ : Nat → Nat) (g h : Graph), g.Nodup → h.Nodup → NoBlankPred g → IsIso σ g h →
+  ∀ (items : List Item) (hW : Nat) (Wn Wn' : List Term), Wn'.Perm (Wn.map (Term.rename σ)) →
+    (∀ w ∈ Wn, w ∈ gterms g) →
+  ∀ n ∈ gterms g,
+    H (items ++ distinguishItems hW h Wn' (n.rename σ)) = H (items ++ distinguishItems hW g Wn n)
+
+/-- "no false positives" of the label stage: if both colourings are discrete (every blank node is the first
+    member of a colour) and the colour hashes used as labels are pairwise distinct (`_refine` merges colours
+    with equal hashes; SHA-256 taken as injective), equal canonical triple sets imply isomorphic inputs. -/
+def Statement_canon_sound_partial : Prop :=
+  ∀ (hcg hch : Color → Nat) (cg ch : List Color) (g h : Graph),
+    (∀ a ∈ bnodes g, ∃ c ∈ cg, ∃ rest, c.nodes = ⟨true, a⟩ :: rest) → (cg.map hcg).Nodup →
+    (∀ a ∈ bnodes h, ∃ c ∈ ch, ∃ rest, c.nodes = ⟨true, a⟩ :: rest) → (ch.map hch).Nodup →
+    SetEq (canonicalTriples (canonLabels hcg cg) g) (canonicalTriples (canonLabels hch ch) h) →
+    Spec.Iso g h
+
+/-- and the canonical graph of a discretely coloured graph is a relabelling of it (`canon g ≅ g`) -/
+def Statement_canon_iso_partial : Prop :=
+  ∀ (hc : Color → Nat) (cs : List Color) (g : Graph),
+    (∀ a ∈ bnodes g, ∃ c ∈ cs, ∃ rest, c.nodes = ⟨true, a⟩ :: rest) → (cs.map hc).Nodup →
+    Spec.Iso g (canonicalTriples (canonLabels hc cs) g)
+
+/-- OPEN (not proved here): completeness of the canonicaliser — isomorphic inputs get EQUAL canonical graphs.
+    For rdflib this is the correctness of the `_traces` search with `_experimental_path` / `_create_generator`
+    pruning, which is not modelled; it is covered only by the correspondence run against `isoDecide`. -/
+def Statement_canon_complete (canon : Graph → Graph) : Prop :=
+  ∀ g h : Graph, Spec.Iso g h → SetEq (canon g) (canon h)
+
+theorem refine_equivariant : Statement_refine_equivariant := by
+  intro H hH σ g h hg hh hp hσ items hW Wn Wn' hWp hWg n hn
+  apply hH
+  apply List.Perm.append_left
+  exact distinguishItems_equivariant hσ.inj hp (perm_of_nodup_setEq hσ.inj hg hh hσ.image) hW hWp hWg hn
+
+theorem canon_iso_partial : Statement_canon_iso_partial := by
+  intro hc cs g hcov hnd
+  apply iso_iff_raw.mpr
+  apply rawIso_relabel
+  apply injOn_of_assignment
+  · exact fun a ha => keys_canonLabels (hcov a ha)
+  · exact (vals_canonLabels_sublist hc cs).nodup hnd
+
+theorem canon_sound_partial : Statement_canon_sound_partial := by
+  intro hcg hch cg ch g h hcovg hndg hcovh hndh e
+  obtain ⟨_, hsymm, htrans⟩ := iso_equiv
+  have h1 := canon_iso_partial hcg cg g hcovg hndg
+  have h2 := canon_iso_partial hch ch h hcovh hndh
+  exact htrans _ _ _ (htrans _ _ _ h1 (iso_iff_raw.mpr (rawIso_of_setEq e))) (hsymm _ _ h2)
+
+/-- non-vacuity: the directed 3-cycle with a discrete colouring (hashes 7, 8, 9) -/
+example : Spec.Iso [(b 1, p, b 2), (b 2, p, b 3), (b 3, p, b 1)]
+    (canonicalTriples (canonLabels (fun c => c.items.length + 7)
+      [⟨[b 1], [], none⟩, ⟨[b 2], [.indiv 1], none⟩, ⟨[b 3], [.indiv 1, .indiv 2], none⟩])
+      [(b 1, p, b 2), (b 2, p, b 3), (b 3, p, b 1)]) := by
+  apply canon_iso_partial
+  · intro a ha
+    have : a = 1 ∨ a = 2 ∨ a = 3 := by
+      simp [bnodes, Triple.bn, Term.bn, b, p] at ha
+      omega
+    rcases this with rfl | rfl | rfl
+    · exact ⟨_, List.mem_cons_self, [], rfl⟩
+    · exact ⟨_, List.mem_cons_of_mem _ List.mem_cons_self, [], rfl⟩
+    · exact ⟨_, List.mem_cons_of_mem _ (List.mem_cons_of_mem _ List.mem_cons_self), [], rfl⟩
+  · decide
+
+/-- non-vacuity of the refinement round: in the directed path 1→2→3 against the splitter {1,2,3},
+    the three nodes get three different colour tuples (out-only, both, in-only) -/
+example : distinguishItems 5 [(b 1, p, b 2), (b 2, p, b 3)] [b 1, b 2, b 3] (b 2) =
+    [.inn 5 p, .out p 5] := by decide
+example : distinguishItems 5 [(b 1, p, b 2), (b 2, p, b 3)] [b 1, b 2, b 3] (b 1) = [.out p 5] := by decide
 
 /-! ## Skolemisation -/
 
